@@ -1480,6 +1480,29 @@ def frag_objective(fn):
     return out
 
 
+def frag_expectile_check(fn):
+    """`ExpectileGAM._validate_params`: the leading `if` statements that mention `self.expectile` (the range check), followed
+    by a synthetic `checked = self.expectile` so that the accepted value is the result of the fragment"""
+    out = []
+    for s in fn.body:
+        if isinstance(s, ast.Expr) and isinstance(getattr(s, 'value', None), ast.Constant) and isinstance(s.value.value, str):
+            continue        # docstring
+        m = isinstance(s, ast.If) and any(isinstance(x, ast.Attribute) and x.attr == 'expectile' for x in ast.walk(s))
+        if m:
+            out.append(s)
+        else:
+            break
+    if not out:
+        raise Unsupported('no leading `if` statement about `self.expectile`')
+    ln = out[-1].end_lineno or out[-1].lineno
+    assign = ast.parse('checked = self.expectile').body[0]
+    for node in ast.walk(assign):
+        if hasattr(node, 'lineno'):
+            node.lineno = ln
+            node.end_lineno = ln
+    return out + [assign]
+
+
 MODEL_CLASSES = ['GAM', 'LinearGAM', 'LogisticGAM', 'PoissonGAM', 'GammaGAM', 'InvGaussGAM', 'ExpectileGAM']
 
 
@@ -1513,6 +1536,10 @@ def decision_specs(trees):
                              attrs={'self.distribution._known_scale': ('B', 'known_scale')},
                              fragment=frag_objective, frag_return='objective', raises=True,
                              what='the validation and resolution of `objective`; `.error` carries the exception class'))
+    specs.append(FormulaSpec('expectile_range_check', 'dists', ('pygam.py', 'ExpectileGAM', '_validate_params', None),
+                             pre=[('expectile', 'α')], params=[], attrs={'self.expectile': ('S', 'expectile')},
+                             fragment=frag_expectile_check, frag_return='checked', raises=True,
+                             what='the range check of `expectile` at the head of the method; `.error` carries the exception class, `.ok` the accepted value'))
     specs.append(FormulaSpec('within_tol', 'dists', ('pygam.py', 'ExpectileGAM', 'fit_quantile', '_within_tol'),
                              pre=[], params=['S', 'S', 'S'], self_param=False,
                              what='`np.abs(x)` ↦ `if x < 0 then -x else x`'))
